@@ -34,7 +34,7 @@ def shards(tier):
     return 4 if tier == 'quick' else 16
 
 
-class SlowConstruction(Exception):
+class SlowConstruction(BaseException):       # not an Exception: third-party code between the alarm and us must not swallow it
     pass
 
 
@@ -231,7 +231,11 @@ class Mon:
         except re.error:
             ctx.count('skipped:not-re-syntax')
             return
-        dfa = rx.DFA(ast)
+        try:
+            dfa = rx.DFA(ast)
+        except rx.TooBig:
+            ctx.count('skipped:oracle-automaton-too-big')
+            return
         try:
             m_str = construct(cpppo.regex, text)
             m_byt = construct(cpppo.regex_bytes, text)
@@ -414,7 +418,11 @@ def run(ctx):
             continue
         text = rx.to_text(ast)
         chars = sorted(rx.chars_of(ast))
-        dfa = rx.DFA(ast)
+        try:
+            dfa = rx.DFA(ast)
+        except rx.TooBig:
+            ctx.count('skipped:oracle-automaton-too-big')
+            continue
         try:
             m = construct(mon.cpppo.regex_bytes, text)
         except SlowConstruction:
